@@ -151,7 +151,11 @@ Definition get_stuff (a : applicable) (obj : list tok) (field_path : member -> l
                       else Ok (quote_action action (Some (field_path ident)) c)
         | _ => Ok (quote_action action (Some (field_path ident)) c)
         end
-    | Some ident, None => Ok (obj ++ field_path ident)
+    | Some ident, None =>
+        match ident with
+        | MIndex n => if is_variant c then Ok (obj ++ field_path (MNamed (f_ident n))) else Ok (obj ++ field_path ident)
+        | _ => Ok (obj ++ field_path ident)
+        end
     | None, Some action => Ok (quote_action action (Some (field_path or_)) c)
     | None, None => Panic "12"
     end in
